@@ -4,7 +4,7 @@ namespace SpecSrv
 open Srv
 
 /-- Sequential reference for one connection: answers to its calls in order; an undecodable call ends
-    the connection (nothing after it is answered). -/
+    the connection (nothing after it is answered). Reply streams never run dry here. -/
 def refOut : List Desc → List Tok
   | [] => []
   | .garbage :: _ => []
@@ -16,6 +16,22 @@ def refServed : List Desc → List Desc
   | .garbage :: _ => []
   | d :: r => d :: refServed r
 
+/-- The same with reply streams that hand over only `cr` results in total (items, or the end of a stream)
+    for this client: a stream that runs dry stays open, and nothing behind it is read until it ends. -/
+def refOutCredit : Nat → List Desc → List Tok
+  | _, [] => []
+  | _, .garbage :: _ => []
+  | cr, .sub n p :: r =>
+    if cr ≥ n + 1 then answer (.sub n p) ++ refOutCredit (cr - (n + 1)) r
+    else ((itemsOf n p).take cr).map tokOf
+  | cr, d :: r => answer d ++ refOutCredit cr r
+
+def refServedCredit : Nat → List Desc → List Desc
+  | _, [] => []
+  | _, .garbage :: _ => []
+  | cr, .sub n p :: r => .sub n p :: (if cr ≥ n + 1 then refServedCredit (cr - (n + 1)) r else [])
+  | cr, d :: r => d :: refServedCredit cr r
+
 /-- On the wire a reply `R v` and a final stream item `I v false` are the same fact
     (`parameters.v = v`, `continues = false`). -/
 def norm : Tok → Tok
@@ -26,11 +42,11 @@ def norm : Tok → Tok
     server was polled afterwards until idle. A well-behaved connection must then have received exactly
     the reference; any connection must have received a prefix of it (nothing fabricated, nothing out
     of order, no answer to a oneway call, nothing after an undecodable call). -/
-def connOK (good complete : Bool) (descs : List Desc) (out : List Tok) (served : List Desc) : Bool :=
+def connOK (good complete : Bool) (credit : Nat) (descs : List Desc) (out : List Tok) (served : List Desc) : Bool :=
   let r := (refOut descs).map norm
   let out := out.map norm
   let s := refServed descs
-  if good && complete then out == r && served == s
+  if good && complete then out == (refOutCredit credit descs).map norm && served == refServedCredit credit descs
   else (out.isPrefixOf r) && (served.isPrefixOf s)
 /-- Fairness oracle for runs in which every call of every connection was buffered before the server
     ran and the connection set is fixed: `log` = connection ids in the order the service was invoked,
